@@ -14,3 +14,116 @@ package template
 //@ func (t TrustedSource) String() (r string)
 //@   serves C20
 //@   ensures same: sameview(r, t.src)
+
+//@ func asciiAlpha(c byte) (r bool)
+//@   serves C01 C08
+//@   ensures spec: r == alpha(c)
+
+//@ func asciiAlphaNum(c byte) (r bool)
+//@   serves C01 C08
+//@   ensures spec: r == alnum(c)
+
+//@ func eatWhiteSpace(s []byte, i int) (r int)
+//@   serves C01 C08
+//@   requires 0 <= i && i <= len(s)
+//@   ensures range: i <= r && r <= len(s)
+//@   ensures skipped: forall(k, i, r, htmlws(s[k]))
+//@   ensures stop: r < len(s) ==> !htmlws(s[r])
+//@   ensures fn: r == skipws(s, i)
+//@   loop 1
+//@     invariant i <= j && j <= len(s)
+//@     invariant forall(k, i, j, htmlws(s[k]))
+//@     invariant skipws(s, j) == skipws(s, i)
+//@     decreases len(s) - j
+
+//@ func eatAttrName(s []byte, i int) (r int, err *Error)
+//@   serves C01 C08
+//@   requires 0 <= i && i <= len(s)
+//@   ensures ok: isnil(err) ==> i <= r && r <= len(s) && forall(k, i, r, !attrnameend(s[k]) && !attrnamebad(s[k])) && (r < len(s) ==> attrnameend(s[r]))
+//@   ensures bad: !isnil(err) ==> r == -1 && exists(p, i, len(s), attrnamebad(s[p]) && forall(k, i, p, !attrnameend(s[k]) && !attrnamebad(s[k])))
+//@   ensures fn: r == attrstop(s, i)
+//@   ensures errfn: isnil(err) == (attrstop(s, i) >= 0)
+//@   loop 1
+//@     invariant i <= j && j <= len(s)
+//@     invariant forall(k, i, j, !attrnameend(s[k]) && !attrnamebad(s[k]))
+//@     invariant attrstop(s, j) == attrstop(s, i)
+//@     decreases len(s) - j
+
+//@ func eatTagName(s []byte, i int) (r int, e element)
+//@   serves C01 C08
+//@   requires 0 <= i && i <= len(s)
+//@   ensures none: (i == len(s) || !alpha(s[i])) ==> r == i && len(e.name) == 0
+//@   ensures span: (i < len(s) && alpha(s[i])) ==> tagnameshape(s, i, r) && tagnamemax(s, r)
+//@   ensures name: (i < len(s) && alpha(s[i])) ==> seqeq(e.name, lower(sub(s, i, r)))
+//@   ensures nonames: len(e.names) == 0
+//@   ensures fn: r == tagend(s, i)
+//@   loop 1
+//@     invariant i < j && j <= len(s) && alpha(s[i])
+//@     invariant tagrest(s, j) == tagrest(s, i + 1)
+//@     invariant forall(k, i, j, alnum(s[k]) || (namesep(s[k]) && k + 1 < j && alnum(s[k+1])))
+//@     decreases len(s) - j
+
+//@ func errorf(k ErrorCode, node parse.Node, line int, f string, args ...interface{}) (r *Error)
+//@   serves C01 C08
+//@   assumed
+//@   ensures !isnil(r)
+
+//@ func tTag(c context, s []byte) (r context, n int)
+//@   serves C01 C08
+//@   ensures range: 0 <= n && n <= len(s)
+//@   ensures allws: skipws(s, 0) == len(s) ==> same(r, c) && n == len(s)
+//@   ensures close: skipws(s, 0) < len(s) && s[skipws(s, 0)] == '>' ==> n == skipws(s, 0) + 1 && r.state == ite(isspecial(c.element.name), stateSpecialElementBody, stateText) && r.delim == delimNone && len(r.attr.name) == 0 && len(r.attr.value) == 0 && !r.attr.ambiguousValue && len(r.attr.names) == 0 && isnil(r.err)
+//@   ensures closevoid: skipws(s, 0) < len(s) && s[skipws(s, 0)] == '>' && len(c.element.name) > 0 && isvoid(c.element.name) ==> len(r.element.name) == 0 && len(r.element.names) == 0 && len(r.scriptType) == 0 && len(r.linkRel) == 0
+//@   ensures closekeep: skipws(s, 0) < len(s) && s[skipws(s, 0)] == '>' && !(len(c.element.name) > 0 && isvoid(c.element.name)) ==> same(r.element, c.element) && same(r.scriptType, c.scriptType) && same(r.linkRel, c.linkRel)
+//@   ensures badname: skipws(s, 0) < len(s) && s[skipws(s, 0)] != '>' && attrstop(s, skipws(s, 0)) <= skipws(s, 0) ==> r.state == stateError && !isnil(r.err) && n == len(s)
+//@   ensures attr: skipws(s, 0) < len(s) && s[skipws(s, 0)] != '>' && attrstop(s, skipws(s, 0)) > skipws(s, 0) ==> n == attrstop(s, skipws(s, 0)) && r.state == ite(n == len(s), stateAttrName, stateAfterName) && same(r.element, c.element) && seqeq(r.attr.name, lower(sub(s, skipws(s, 0), n))) && same(r.linkRel, c.linkRel) && r.delim == delimNone && isnil(r.err) && len(r.attr.value) == 0 && !r.attr.ambiguousValue && len(r.attr.names) == 0 && len(r.scriptType) == 0
+
+//@ func tAttrName(c context, s []byte) (r context, n int)
+//@   serves C01 C08
+//@   ensures bad: attrstop(s, 0) < 0 ==> r.state == stateError && !isnil(r.err) && n == len(s)
+//@   ensures whole: attrstop(s, 0) == len(s) ==> same(r, c) && n == len(s)
+//@   ensures ends: 0 <= attrstop(s, 0) && attrstop(s, 0) < len(s) ==> n == attrstop(s, 0) && r.state == stateAfterName && r.delim == c.delim && same(r.element, c.element) && same(r.attr, c.attr) && same(r.err, c.err) && same(r.scriptType, c.scriptType) && same(r.linkRel, c.linkRel)
+
+//@ func tAfterName(c context, s []byte) (r context, n int)
+//@   serves C01 C08
+//@   ensures allws: skipws(s, 0) == len(s) ==> same(r, c) && n == len(s)
+//@   ensures eq: skipws(s, 0) < len(s) && s[skipws(s, 0)] == '=' ==> n == skipws(s, 0) + 1 && r.state == stateBeforeValue
+//@   ensures other: skipws(s, 0) < len(s) && s[skipws(s, 0)] != '=' ==> n == skipws(s, 0) && r.state == stateTag
+//@   ensures frame: r.delim == c.delim && same(r.element, c.element) && same(r.attr, c.attr) && same(r.err, c.err) && same(r.scriptType, c.scriptType) && same(r.linkRel, c.linkRel)
+
+//@ func tBeforeValue(c context, s []byte) (r context, n int)
+//@   serves C01 C08
+//@   ensures allws: skipws(s, 0) == len(s) ==> same(r, c) && n == len(s)
+//@   ensures dq: skipws(s, 0) < len(s) && s[skipws(s, 0)] == '"' ==> n == skipws(s, 0) + 1 && r.state == stateAttr && r.delim == delimDoubleQuote
+//@   ensures sq: skipws(s, 0) < len(s) && s[skipws(s, 0)] == '\'' ==> n == skipws(s, 0) + 1 && r.state == stateAttr && r.delim == delimSingleQuote
+//@   ensures unq: skipws(s, 0) < len(s) && s[skipws(s, 0)] != '"' && s[skipws(s, 0)] != '\'' ==> n == skipws(s, 0) && r.state == stateAttr && r.delim == delimSpaceOrTagEnd
+//@   ensures frame: same(r.element, c.element) && same(r.attr, c.attr) && same(r.err, c.err) && same(r.scriptType, c.scriptType) && same(r.linkRel, c.linkRel)
+
+//@ func tHTMLCmt(c context, s []byte) (r context, n int)
+//@   serves C01 C08
+//@   ensures found: exists(p, 0, len(s) - 2, matchat(s, p, "-->")) ==> r.state == stateText && r.delim == delimNone && len(r.element.name) == 0 && len(r.attr.name) == 0 && isnil(r.err) && n >= 3 && n <= len(s) && matchat(s, n - 3, "-->") && forall(q, 0, n - 3, !matchat(s, q, "-->"))
+//@   ensures none: !exists(p, 0, len(s) - 2, matchat(s, p, "-->")) ==> same(r, c) && n == len(s)
+
+//@ func tAttr(c context, s []byte) (r context, n int)
+//@   serves C01 C08
+//@   ensures same(r, c) && n == len(s)
+
+//@ func tError(c context, s []byte) (r context, n int)
+//@   serves C01 C08
+//@   ensures same(r, c) && n == len(s)
+
+//@ func indexTagEnd(s []byte, tag []byte) (r int)
+//@   serves C01 C08
+//@   requires forall(k, 0, len(tag), tag[k] < 128 && tag[k] != '<')
+//@   ensures found: r >= 0 ==> r + 2 + len(tag) < len(s) && endtagat(s, r, tag) && forall(p, 0, r, !endtagat(s, p, tag))
+//@   ensures none: r < 0 ==> r == -1 && forall(p, 0, len(s), !endtagat(s, p, tag))
+//@   loop 1
+//@     invariant 0 <= res && res <= len(old(s)) && plen == 2
+//@     invariant subview(s, old(s), res, len(old(s)))
+//@     invariant forall(p, 0, res, !endtagat(old(s), p, tag))
+//@     decreases len(s)
+
+//@ func tSpecialTagEnd(c context, s []byte) (r context, n int)
+//@   serves C01 C08
+//@   ensures found: isspecial(c.element.name) && exists(p, 0, len(s), endtagat(s, p, c.element.name)) ==> r.state == stateText && r.delim == delimNone && len(r.element.name) == 0 && len(r.attr.name) == 0 && isnil(r.err) && len(r.linkRel) == 0 && len(r.scriptType) == 0 && 0 <= n && n < len(s) && endtagat(s, n, c.element.name) && forall(p, 0, n, !endtagat(s, p, c.element.name))
+//@   ensures none: !(isspecial(c.element.name) && exists(p, 0, len(s), endtagat(s, p, c.element.name))) ==> same(r, c) && n == len(s)
